@@ -594,7 +594,7 @@ def classify(family, line, impl):
 
 def report(chk, family, harness, dis, judged, pid_note=""):
     judged_lines = set()
-    for j in judged[:40]:
+    for j in judged[:10]:
         judged_lines.add(j["line"])
         chk.report(classify(family, j["line"], j["impl"]), "%s: %s" % (short(j["line"]), j["what"]),
                    {"family": family, "harness": harness, "lines": [j["line"]], "observed_impl": j["impl"][:2000],
